@@ -20,6 +20,10 @@
 // reported number to lie in [must + negative may, must + positive may]; once
 // the program is quiescent the bracket collapses to equality with the model.
 //
+// Two sub-checks share generator pieces, execution and oracle:
+// sum_conservation (concurrent programs, each executed twice) and
+// sequential_model (one goroutine: every bracket is an equality).
+//
 // Readings of the statement (conservative where it is ambiguous):
 //   - "reported by a reader" = returned by a Collect call on the reader that
 //     returned nil, or contained in a payload handed to the reader's exporter
@@ -902,7 +906,7 @@ func runOnce(c Case) ([]vk.Violation, map[string]bool) {
 						break
 					}
 					if run < b.lo || run > b.hi {
-						bad("delta_overcount", "reader %d (delta) %v: the collections completed by t=%d add up to %d units, but the Adds issued by then allow only [%d, %d] (a measurement counted twice or invented)", ri, s, co.end, run, b.lo, b.hi)
+						bad("delta_overcount", "reader %d (delta) %v: the collections completed by t=%d add up to %d units, but the %d Adds issued by then allow only [%d, %d]: %s", ri, s, co.end, run, b.mayCnt, b.lo, b.hi, hint(in, run < b.lo))
 						break
 					}
 				}
@@ -1263,7 +1267,7 @@ func TestSequentialModel(t *testing.T) {
 		Property: "C02", Check: "sequential_model",
 		Rule: "the same instruments / attribute-set pool / readers as sum_conservation, but one goroutine issuing 1-80 Adds, Collects (any reader, reused or fresh ResourceMetrics), ForceFlushes and rare sleeps in sequence, final Collect, Shutdown, late calls: every bracket collapses to equality with the model at every collection point (interval exports of periodic readers still run beside it); " +
 			"non-trivial = >= 2 Adds and at least one Add between two collection points; distinct = distinct case encodings",
-		Quick: 1500, Thorough: 20000,
+		Quick: 1500, Thorough: 15000,
 		Gen: genSeq, Run: runSeq, Repeat: 20,
 	})
 }
@@ -1273,7 +1277,7 @@ func TestSumConservation(t *testing.T) {
 		Property: "C02", Check: "sum_conservation",
 		Rule: "generated concurrent programs: 1-4 instruments (Int64/Float64 Counter/UpDownCounter, two meters), a pool of 1-6 near-identical attribute sets, 1-3 readers (ManualReader or PeriodicReader with a recording exporter and a 1 ms - 5 ms or 1 h interval; delta / cumulative / delta-for-counters temporality), 1-4 barrier-separated phases of 1-8 recorder goroutines (0-200 Adds of exact, pairwise distinct values, <= 1000 per program) and 0-3 collector goroutines (Collect on any reader, provider ForceFlush, sleeps) with generated schedule perturbations, a final Collect on manual readers, Shutdown (optionally racing further Adds) and late calls; each program is executed twice; " +
 			"non-trivial = >= 1 collection (Collect / ForceFlush by logical-clock overlap, or an export whose collection window contains an Add) ran concurrently with >= 1 Add and >= 2 collections happened; distinct = distinct case encodings",
-		Quick: 300, Thorough: 4000,
+		Quick: 300, Thorough: 3000,
 		Gen: gen, Run: run, Repeat: 100,
 		ShrinkTime: 30 * time.Second,
 	})
